@@ -132,6 +132,8 @@ def body_rules(prog, rep, keys, positive=False):
         b = prog.bodies[k]
         if b.d["unsafe"]:
             hits.append((k, "unsafe fn", b.where()))
+        if b.d.get("unsafe_blocks"):
+            hits.append((k, "unsafe block (%d)" % b.d["unsafe_blocks"], b.where()))
         for bl in b.blocks:
             if bl["cleanup"]:
                 continue
@@ -140,8 +142,6 @@ def body_rules(prog, rep, keys, positive=False):
                     rv = st["rv"]
                     if rv["k"] == "thread_local_ref":
                         hits.append((k, "thread-local %s" % rv["path"], common.where(st)))
-                    if rv["k"] == "raw_ptr" and not st["span"]["exp"]:
-                        hits.append((k, "raw pointer taken", common.where(st)))
                     if rv["k"] == "cast" and rv["kind"] == "Transmute" and not st["span"]["exp"]:
                         hits.append((k, "transmute", common.where(st)))
                     for o in mir.operands_of_rvalue(rv):
@@ -240,6 +240,7 @@ def run(tier):
     kinds = {h[1].split(":")[0] for h in phits}
     for want in ("clock", "process environment", "atomics (shared mutable state)", "process control"):
         rep.ob("positive-control", "effects rule fires on `%s`" % want, want in kinds, "rule did not match its positive control (fired: %s)" % sorted(kinds))
+    rep.ob("positive-control", "unsafe block detected", any(h[1].startswith("unsafe block") for h in phits), "fired: %s" % sorted({h[1][:30] for h in phits}))
     rep.ob("positive-control", "thread-local / static mut detected", any(h[1].startswith("thread-local") for h in phits) and any("static mut" in h[1] for h in phits), "fired: %s" % sorted({h[1][:30] for h in phits}))
     _, sb = static_rules(prog, rep, ("pv_positive",), positive=True)
     _, tb = type_rules(prog, rep, ("pv_positive",), positive=True)
